@@ -489,6 +489,12 @@ def run_C09(rep, tier, seed):
                                          "step_solver_type": ss, "linear_solver_type": "LU"}, scaling=False)
         tb["faults"] = {"linear": {"estimator_solve": r.randint(1, 6)}}
         targeted.append(tb)
+    # a Newton matrix whose condition number is beyond 1/eps: the estimate is tiny, the step is as good as ever
+    tb = C.gen_case(g, "ill_conditioned", {"iteration_limit": 40, "report_rcond": False, "collect_path": False,
+                                           "step_solver_type": ["Standard", "Extended", "Symmetric", "Asymmetric"],
+                                           "linear_solver_type": "LU", "penalty_update": "Constant"}, scaling=False)
+    tb["x0"] = [0.0, 0.0]
+    targeted.append(tb)
     for tb in targeted:
         tb["obs"] = {"log_level": "ERROR", "display_interval": 1e9, "callbacks": False, "collect_path": False, "report_rcond": False}
         tb["targeted"] = True
